@@ -41,6 +41,13 @@ def excluded_reason(nd: tg.Node) -> t.Optional[str]:
     for n in nd.walk():
         if isinstance(n, cg.TaggedNode) and n.layout != 'internal':
             return 'external/adjacent tagged union (excluded by the statement)'
+        if isinstance(n, cg.TaggedNode):
+            # convert() serialises by the value's own type: the statement ranges over types that read that form.  An internally
+            # tagged union does so only if each variant writes the tag itself, under the tag's name
+            for vn in n.variants:
+                tf = next((f for f in vn.fields if f.name == n.tag), None)
+                if tf is None or tf.exclude or tf.out_name != n.tag:
+                    return 'internally tagged union whose variant does not write the tag itself (not its own serialised form)'
         if isinstance(n, cg.ClsNode) and not n.output_readable():
             return 'dataclass output form not enabled on input'
     return None
